@@ -290,6 +290,7 @@ pub fn spec(id: &str) -> Option<PropSpec> {
     }
 }
 
+#[allow(dead_code)]
 pub const ALL_IDS: [&str; 20] = [
     "C01", "C02", "C03", "C04", "C05", "C06", "C07", "C08", "C09", "C10", "C11", "C12", "C13", "C14", "C15", "C16", "C17", "C18", "C19", "C20",
 ];
